@@ -65,6 +65,11 @@ def build(tier, seed):
         J.append(rec_job('C03', 3, 3, 'avx2', ir=[0, 1, 2], kind='negctl'))
     import C03_misc
     J += C03_misc.jobs(tier, seed)
+    seen = set(); J2 = []
+    for j in J:
+        if j.name not in seen:
+            seen.add(j.name); J2.append(j)
+    J = J2
     return dict(jobs=J,
         bounds={'failure_index_sets': 'enumerated by the generator (listed per job); inside each all data, the garbage found in lost buffers and unused parities are symbolic', 'size': 64,
                 'decoders': variants, 'generators installed in raid_gen_ptr': 'gen1/2/z int64, gen3..6 translated SSSE3'},
